@@ -294,24 +294,12 @@ func spellingTokens(w *World, lexType string, lexPkg string) (map[string]int64, 
 	}
 	// operator names
 	gon := w.Method("xpath", "CommonLex", "getOperatorName")
-	gfd, gp := w.FuncDecl(gon)
-	sws := switchesOn(gfd.Body, func(e ast.Expr) bool { return objOfIdent(gp, e) == paramObj(gp, gfd, 0) })
-	if len(sws) == 1 {
-		for _, a := range switchArms(gp, sws[0]) {
-			rets := returnsIn(a.Clause)
-			if a.Default || len(rets) != 1 {
-				continue
-			}
-			if v, ok := ConstInt(gp, rets[0].Results[0]); ok {
-				for _, c := range a.Consts {
-					if c != nil && c.Kind() == constant.String {
-						out[constant.StringVal(c)] = v
-					}
-				}
-			}
+	if names, why := stringDecision(w, w.SSAFunc(gon), 1); why == "" {
+		for k, v := range names {
+			out[k] = v
 		}
 	} else {
-		problems = append(problems, "getOperatorName: switch on the name not found")
+		problems = append(problems, "getOperatorName: "+why)
 	}
 	// LexName must consult getOperatorName under tokenCanBeOperator
 	lfd, lp := w.FuncDecl(w.Method("xpath", "CommonLex", "LexName"))
